@@ -6,6 +6,7 @@ import (
 	"go/types"
 	"math/big"
 	"os"
+	"sort"
 	"strings"
 
 	"golang.org/x/tools/go/ssa"
@@ -517,6 +518,7 @@ func (e *SpecEnv) index(v *SVal, idx *SVal) *SVal {
 	case KMap:
 		m := e.force(v)
 		val, _ := fr.mapLookupIn(e.heap, m, e.keyTerm(idx))
+		fr.mapValuesAllocated(e.heap, m)
 		return val
 	case KStr:
 		s := e.force(v)
@@ -648,7 +650,12 @@ func (e *SpecEnv) callExpr(n *Node) *SVal {
 			return intVal(sInt(v.T.Underlying().(*types.Array).Len()))
 		case KMap:
 			m := e.force(v)
-			return intVal(sIte(sEq(m.Term, "0"), "0", fr.mapLen(e.heap, m)))
+			ml := fr.mapLen(e.heap, m)
+			if !hasBound(ml) {
+				// the length of a map is the cardinality of its domain: never negative
+				x.em.Assert(sLe("0", ml))
+			}
+			return intVal(sIte(sEq(m.Term, "0"), "0", ml))
 		}
 		sfail("len of %s", v.T)
 	case "cap":
@@ -889,6 +896,57 @@ func (e *SpecEnv) callExpr(n *Node) *SVal {
 			cs = append(cs, e.equal(cur, old))
 		default:
 			sfail("unchanged(%s): expected a map, slice or pointer", args[0])
+		}
+		return boolVal(sAnd(cs...))
+	case "frame":
+		// frame(loc, ...): compared with the state at function entry, memory allocated then
+		// differs at most in the listed locations (same items as a modifies clause). Meant as
+		// a loop invariant for loops whose effects the generator cannot localise by itself.
+		oenv := *e
+		oenv.heap = e.old
+		allowed := map[string]bool{}
+		cells := map[string][]string{}
+		for _, m := range args {
+			cell := fr.modCell(m, &oenv)
+			for _, n := range fr.resolveModifies(m, &oenv) {
+				if cell == "" {
+					allowed[n] = true
+				} else {
+					cells[n] = append(cells[n], cell)
+				}
+			}
+		}
+		if e.heap.epoch != e.old.epoch {
+			return boolVal("false")
+		}
+		a0 := x.heapGet(e.old, allocName, "Int")
+		var names []string
+		for n := range e.heap.m {
+			names = append(names, n)
+		}
+		sort.Strings(names)
+		var cs []string
+		for _, n := range names {
+			if allowed[n] || strings.HasPrefix(n, "$") {
+				continue
+			}
+			srt := e.heap.sorts[n]
+			t0 := x.heapGet(e.old, n, srt)
+			t1 := e.heap.m[n]
+			if t0 == t1 {
+				continue
+			}
+			if strings.HasPrefix(n, "G:") {
+				cs = append(cs, sEq(t0, t1))
+				continue
+			}
+			x.nFrames++
+			r := fmt.Sprintf("r!q%d", x.nFrames)
+			guard := []string{sLe(r, a0)}
+			for _, cl := range cells[n] {
+				guard = append(guard, sNot(sEq(r, cl)))
+			}
+			cs = append(cs, "(forall (("+r+" Int)) (=> "+sAnd(guard...)+" (= (select "+t1+" "+r+") (select "+t0+" "+r+"))))")
 		}
 		return boolVal(sAnd(cs...))
 	case "sameslice":
